@@ -464,6 +464,93 @@ theorem neg_zero_hash_witness :
   revert this
   decide +kernel
 
+/-! ## Key comparison in the B+tree (tree/cell_ops.rs) -/
+
+/-- the first key of a laid-out key list reads back, and the reader's cursor ends where the next key's layout starts -/
+theorem read_first_key (v : Value) (pre rest : Bytes) (vs : List Value) (hw : v.Wf) (hn : v ≠ .null) :
+    ∃ pre' : Bytes,
+      pre ++ layoutKeys pre.length (v :: vs) ++ rest = pre' ++ layoutKeys pre'.length vs ++ rest ∧
+      deserialize {} v.kind (pre ++ layoutKeys pre.length (v :: vs) ++ rest) pre.length = .ok (v, pre'.length) := by
+  obtain ⟨bs, hs⟩ := serialize_ok_of_ne_null v hn
+  have hle := le_alignUp v.kind pre.length
+  generalize hat : alignUp pre.length v.kind.align = at_ at *
+  have hplen : (pre ++ List.replicate (at_ - pre.length) 0).length = at_ := by
+    simp only [List.length_append, List.length_replicate]; omega
+  obtain ⟨bs2, hs2, hd⟩ := serialize_roundtrip v hw hn (pre ++ List.replicate (at_ - pre.length) 0)
+    (layoutKeys (at_ + bs.length) vs ++ rest) pre.length (by rw [hat, hplen])
+  rw [hs] at hs2
+  simp only [Except.ok.injEq] at hs2
+  subst hs2
+  refine ⟨pre ++ List.replicate (at_ - pre.length) 0 ++ bs, ?_, ?_⟩
+  · rw [layoutKeys_cons _ v vs bs hs, hat]
+    have : (pre ++ List.replicate (at_ - pre.length) 0 ++ bs).length = at_ + bs.length := by
+      rw [List.length_append, hplen]
+    rw [this]
+    simp only [List.append_assoc]
+  · rw [layoutKeys_cons _ v vs bs hs, hat]
+    have e : pre ++ (List.replicate (at_ - pre.length) 0 ++ bs ++ layoutKeys (at_ + bs.length) vs) ++ rest =
+        pre ++ List.replicate (at_ - pre.length) 0 ++ bs ++ (layoutKeys (at_ + bs.length) vs ++ rest) := by
+      simp only [List.append_assoc]
+    rw [e, hd]
+    simp only [List.length_append]
+
+/-- Tree search order = value order: on two key tuples laid out as `TupleBuilder` writes them (each key at the next
+    multiple of its alignment), `compare_keys` returns the column-by-column order of the key *values* — for any
+    number of key columns of any kinds, wherever the keys start, whatever surrounds them. -/
+theorem keyCmp_agrees_with_cmp (ks : List Kind) (tvs cvs : List Value)
+    (ht : tvs.map Value.kind = ks) (hc : cvs.map Value.kind = ks)
+    (hwt : ∀ v ∈ tvs, v.Wf ∧ v ≠ .null) (hwc : ∀ v ∈ cvs, v.Wf ∧ v ≠ .null)
+    (tpre trest cpre crest : Bytes) :
+    ∃ o, lexValues {} tvs cvs = some o ∧
+      compareKeys {} ks (tpre ++ layoutKeys tpre.length tvs ++ trest) tpre.length
+        (cpre ++ layoutKeys cpre.length cvs ++ crest) cpre.length = .ok o := by
+  induction ks generalizing tvs cvs tpre cpre with
+  | nil =>
+    cases tvs <;> cases cvs <;> simp at ht hc
+    exact ⟨.eq, rfl, rfl⟩
+  | cons k ks ih =>
+    match tvs, cvs, ht, hc with
+    | t :: ts, c :: cs, ht, hc =>
+      simp only [List.map_cons, List.cons.injEq] at ht hc
+      obtain ⟨hkt, hts⟩ := ht
+      obtain ⟨hkc, hcs⟩ := hc
+      obtain ⟨hwt0, hnt⟩ := hwt t (by simp)
+      obtain ⟨hwc0, hnc⟩ := hwc c (by simp)
+      obtain ⟨tpre', tlay, trd⟩ := read_first_key t tpre trest ts hwt0 hnt
+      obtain ⟨cpre', clay, crd⟩ := read_first_key c cpre crest cs hwc0 hnc
+      have hcls : t.cls = c.cls ∧ t.cls ≠ 0 := by
+        have hk : t.kind = c.kind := hkt.trans hkc.symm
+        cases t <;> cases c <;> simp only [Value.kind, reduceCtorEq] at hk <;>
+          first | exact absurd rfl hnt | exact ⟨rfl, by simp [Value.cls]⟩
+      obtain ⟨o, ho⟩ := Option.isSome_iff_exists.mp ((cmp_total_order.1 t c).mpr hcls)
+      rw [hkt] at trd
+      rw [hkc] at crd
+      rw [compareKeys, trd]
+      simp only
+      rw [crd]
+      simp only [ho]
+      cases o with
+      | eq =>
+        obtain ⟨o', h1, h2⟩ := ih ts cs hts hcs (fun v hv => hwt v (by simp [hv])) (fun v hv => hwc v (by simp [hv]))
+          tpre' cpre'
+        refine ⟨o', by simp only [lexValues, ho, h1], ?_⟩
+        rw [tlay, clay]
+        exact h2
+      | lt => exact ⟨.lt, by simp only [lexValues, ho], rfl⟩
+      | gt => exact ⟨.gt, by simp only [lexValues, ho], rfl⟩
+
+/-- Shipped defects seen through the tree: with comparison through `f64` the BIGINT keys 2^53 and 2^53 + 1 are the
+    same key (a second INSERT is a duplicate-key error, a lookup finds the wrong row); a NaN key makes the comparator
+    fail ("Cannot compare null keys"). Both fixed by 57ea8a0 / 38f555e. -/
+theorem key_collision_witness :
+    compareKeys { numericViaF64 := true } [.bigint] (layoutKeys 0 [.bigint 9007199254740993]) 0
+      (layoutKeys 0 [.bigint 9007199254740992]) 0 = .ok .eq ∧
+    compareKeys {} [.bigint] (layoutKeys 0 [.bigint 9007199254740993]) 0
+      (layoutKeys 0 [.bigint 9007199254740992]) 0 = .ok .gt ∧
+    compareKeys { nanUnordered := true } [.double] (layoutKeys 0 [.double 9221120237041090560]) 0
+      (layoutKeys 0 [.double 4607182418800017408]) 0 = .error .nullKey := by
+  refine ⟨by decide +kernel, by decide +kernel, by decide +kernel⟩
+
 /-- Non-vacuity of the hypotheses above. -/
 example : Value.Wf (.blob [1, 2, 3]) ∧ Value.Wf (.double 9221120237041090560) ∧ Value.Wf (.int (-2147483648)) := by decide
 example : Value.Safe (.bigint (-9007199254740992)) ∧ ¬ Value.Safe (.bigint 9007199254740993) ∧ Value.Safe (.double 9218868437227405312) := by decide
